@@ -39,6 +39,26 @@ pub fn run(sh: &mut Shell, cl: &CommandLine, cmd: &Command,
             buffer.push_str(&redirect_from.1);
             buffer.push('\n');
         }
+    } else if cmd.has_redirect_from() {
+        // `read name < file`: the line comes from the file, not from the
+        // shell's own stdin.
+        if let Some(redirect_from) = &cmd.redirect_from {
+            use std::io::BufRead;
+            match std::fs::File::open(&redirect_from.1) {
+                Ok(f) => {
+                    if let Err(e) = io::BufReader::new(f).read_line(&mut buffer) {
+                        let info = format!("cicada: read: error in reading {}: {:?}", &redirect_from.1, e);
+                        print_stderr_with_capture(&info, &mut cr, cl, cmd, capture);
+                        return cr;
+                    }
+                }
+                Err(e) => {
+                    let info = format!("cicada: {}: {}", &redirect_from.1, e);
+                    print_stderr_with_capture(&info, &mut cr, cl, cmd, capture);
+                    return cr;
+                }
+            }
+        }
     } else {
         match io::stdin().read_line(&mut buffer) {
             Ok(_) => {}
